@@ -295,6 +295,8 @@ def rule_conv(c, prog):
 
 
 def run(c, prog):
+    from . import C01 as _C01
+    _C01.rule_uid(core.Alias(c, "C06"), prog)     # the binary reader regenerates a repeated nil UniqueId, the XML reader keeps it
     from . import C15 as _C15, C01_rot as _C01_rot
     _C15.rule_sites(core.Alias(c, "C06"), prog, full=False)     # both readers: explicit value always stored, migrated only when absent — else the formats disagree on which spelling wins
     _C01_rot.run(core.Alias(c, "C06"), prog)     # the binary format's rotation ids must denote the matrix the XML format spells out
